@@ -97,6 +97,20 @@ def structured():
     for cwd, search in (("proj", ("lib",)), ("cwd", ("proj",)), ("proj", ())):
         out.append(finish([mkfile("proj", ["p"], "Xa", ["p"]), mkfile("proj", ["p"], "main", ["p"], [{"parts": ["p"], "sym": "*"}], True)], 2, cwd, search))
         out.append(finish([mkfile("proj", ["p"], "Xa", ["p"], [{"parts": ["p"], "sym": "*"}]), mkfile("proj", ["p"], "main", ["p"], [{"parts": ["p"], "sym": "Xa"}], True)], 2, cwd, search))
+    # packages whose first component merely STARTS with "bloch" are ordinary packages: the importing file's directory comes first
+    for parts, sym in ((["blochx"], "Xa"), (["blochx", "u"], "*"), (["blochx"], "*"), (["blochlabs", "u"], "Yb"), (["bloc"], "Xa"), (["xbloch", "bloch"], "Yb")):
+        d = parts
+        nm = "Xa" if sym in ("Xa", "*") else "Yb"
+        out.append(finish([mkfile("proj", d, nm, d), mkfile("lib", d, nm, d), mkfile("proj", [], "main", ["?"], [{"parts": parts, "sym": sym}], True)], 3))
+        out.append(finish([mkfile("lib", d, nm, d), mkfile("cwd", d, nm, d), mkfile("proj", [], "main", ["?"], [{"parts": parts, "sym": sym}], True)], 3))
+    # one file importing two modules with the same simple name from different packages: both are resolved, loaded and package-checked
+    # (second one right / declaring the wrong package / missing / reached by a wildcard)
+    two = [{"parts": ["a"], "sym": "Zc"}, {"parts": ["b"], "sym": "Zc"}]
+    for imps in (two, list(reversed(two)), [{"parts": ["a"], "sym": "Zc"}, {"parts": ["b"], "sym": "*"}]):
+        out.append(finish([mkfile("proj", ["a"], "Zc", ["a"]), mkfile("proj", ["b"], "Zc", ["b"]), mkfile("proj", [], "main", ["?"], imps, True)], 3))
+        out.append(finish([mkfile("proj", ["a"], "Zc", ["a"]), mkfile("proj", ["b"], "Zc", ["c"]), mkfile("proj", [], "main", ["?"], imps, True)], 3))
+        out.append(finish([mkfile("proj", ["a"], "Zc", ["a"]), mkfile("lib", ["b"], "Zc", ["b"]), mkfile("proj", [], "main", ["?"], imps, True)], 3))
+        out.append(finish([mkfile("proj", ["a"], "Zc", ["a"]), mkfile("proj", [], "main", ["?"], imps, True)], 2))
     # two mains / no main
     out.append(finish([mkfile("proj", [], "Xa", ["?"], [], True), mkfile("proj", [], "main", ["?"], [{"parts": [], "sym": "Xa"}], True)], 2))
     out.append(finish([mkfile("proj", [], "Xa", ["?"]), mkfile("proj", [], "main", ["?"], [{"parts": [], "sym": "Xa"}], False)], 2))
